@@ -77,6 +77,9 @@ def stream_datasets(R, n):
         for k, order in enumerate(orders):
             strat = strategies[k] if k < 2 else rng.choice(["in memory", "on disk", None])
             variants.append((L.order_ops(ds, rng, order), strat, order))
+        if i < 2 and n_big:
+            # one more copy written by a child interpreter that exits without close()
+            variants.append((L.order_ops(ds, rng, "reversed"), ["child:noclose", "child:O:noclose"][i], "reversed"))
         todo.append((ds, variants))
     # implementation writes
     writes = []
@@ -484,6 +487,11 @@ def stream_info_sessions(R, n):
     L.run_info_sessions(R, n, "C05")
 
 
+def stream_large(R, n):
+    """Deterministic large cases (oracle only, see shardlib.run_large_cases)."""
+    L.run_large_cases(R, "C05")
+
+
 def stream_voxels(R, n):
     """Decoded voxels through PrecomputedIO on a sharded dataset."""
     import numpy as np
@@ -541,7 +549,7 @@ def run(R):
     quick = R.tier == "quick"
     for fn, n in ((stream_datasets, 480 if quick else 5000), (stream_duplicates, 250 if quick else 2500),
                   (stream_damaged, 400 if quick else 4000), (stream_minishard, 800 if quick else 12000),
-                  (stream_sessions, 150 if quick else 2500), (stream_info_sessions, 60 if quick else 1000),
+                  (stream_sessions, 150 if quick else 2500), (stream_info_sessions, 60 if quick else 1000), (stream_large, 1),
                   (stream_voxels, 60 if quick else 600)):
         try:
             fn(R, n)
@@ -566,6 +574,13 @@ def _replay_once(R, payload):
     if not case and payload.get("disagreements"):
         case = payload["disagreements"][0].get("case") or {}
     before = (len(R.violations), len(R.disagreements))
+    if str(case.get("subset", "")).startswith("large:"):
+        before0 = (len(R.violations), len(R.disagreements))
+        try:
+            L.run_large_cases(R, "C05")
+        except (L.ImplAbort, L.ImplHang):
+            return True
+        return (len(R.violations), len(R.disagreements)) != before0
     if case.get("stream") == "info-sessions" and "steps" in case:
         return L.replay_info_session(R, case, "C05")
     if case.get("stream") == "sessions" and "sops" in case:
